@@ -29,7 +29,7 @@ func (o optimizer[V]) Optimize(ast parser2.AST) parser2.AST {
 						return &parser2.Const[V]{Value: co, Line: oper.Line}
 					}
 				}
-				if operator.IsCommutative {
+				if operator.IsPure && operator.IsCommutative {
 					if aOp, ok := oper.A.(*parser2.Operate); ok && aOp.Operator == oper.Operator {
 						if iac, ok := o.isConst(aOp.A); ok {
 							co, err := operator.Impl.Calc(o.st, iac, bc)
